@@ -103,11 +103,14 @@ where
             let a = range.start;
             let b = range.end;
             let d = b - a;
-            let norm = (*x - a) / d;
+            // The fractional part of `(x - a) / d`, calculated from the (exact) remainder: the
+            // quotient itself overflows for values far outside of a narrow domain.
+            let rem = (*x - a) % d;
+            let frac = if rem < 0. { 1. + rem / d } else { rem / d };
 
             *x = match *x {
-                v if v < range.start => a + (1. - (norm - norm.floor()).abs()) * d,
-                v if v > range.end => a + (norm - norm.floor()) * d,
+                v if v < range.start => a + (1. - frac.abs()) * d,
+                v if v > range.end => a + frac * d,
                 v => v,
             };
         }
